@@ -219,7 +219,7 @@ jm::Units size_document(const Case &c) {
         }
         u.push_back('"');
     };
-    switch (c.form % 9) {
+    switch (c.form % 11) {
         case 0: add("["); long_string(0); add("]"); break;
         case 1: add("["); long_string(1); add("]"); break;
         case 2: add("[1,"); long_string(2); add(",2]"); break;
@@ -250,6 +250,25 @@ jm::Units size_document(const Case &c) {
             add("[0.");
             u.insert(u.end(), m, '0');
             add(("1e" + std::to_string(m + 1) + "]").c_str());
+            break;
+        }
+        case 9:
+        case 10: { // two keys of different lengths that share their full 32-bit hash (long even runs of NUL units collapse to one hash
+                   // value in StringUtils::Hash), the shorter one first, then the longer; form 10 puts a letter in front of both
+            const unsigned l1 = 32 + 2 * (n % 5), l2 = l1 + 2 + 2 * (n % 3);
+            add("{\"");
+            if ((c.form % 11) == 10) {
+                add("x");
+            }
+            u.insert(u.end(), l1, 0);
+            add("\":1,\"");
+            if ((c.form % 11) == 10) {
+                add("x");
+            }
+            u.insert(u.end(), l2, 0);
+            add("\":2,\"");
+            u.insert(u.end(), l1, 0);
+            add("\":3}");
             break;
         }
         default: { // long integer-looking token with a negative exponent: 1000...0e-zeros denotes 1
@@ -289,7 +308,7 @@ struct H {
                                  c.width   = std::get<3>(t);
                                  return c;
                              });
-        auto size = gen::map(gen::tuple(pbt::range<int>(0, kNSizes - 1), pbt::range<int>(0, 8), pbt::pick<int>({0, 0, 0, 1}), pbt::pick<int>({1, 1, 2, 4})),
+        auto size = gen::map(gen::tuple(pbt::range<int>(0, kNSizes - 1), pbt::range<int>(0, 10), pbt::pick<int>({0, 0, 0, 1}), pbt::pick<int>({1, 1, 2, 4})),
                              [](std::tuple<int, int, int, int> t) {
                                  Case c;
                                  c.kind    = 3;
@@ -358,7 +377,7 @@ struct H {
         unsigned idx = 0;
         static const int widths[] = {1, 2, 4};
         for (int si = 0; si < kNSizes; ++si) {
-            for (int form = 0; form < 9; ++form) {
+            for (int form = 0; form < 11; ++form) {
                 for (int closing = 0; closing < 2; ++closing) {
                     for (int w : widths) {
                         if ((idx++ % nshards) != shard) {
@@ -378,7 +397,7 @@ struct H {
             }
         }
         ctx.exhaustive      = true;
-        ctx.exhaustive_what = "size class: 14 sizes x 9 shapes x complete/cut x 3 unit widths (756 documents, sharded)";
+        ctx.exhaustive_what = "size class: 14 sizes x 11 shapes x complete/cut x 3 unit widths (924 documents, sharded)";
     }
     static void run(const Case &c, pbt::Ctx &ctx) {
         jm::Units u;
@@ -391,8 +410,8 @@ struct H {
         } else if (c.kind == 3) {
             u = size_document(c);
             static const char *sh[] = {"string", "string-escape-first", "string-escape-middle", "string-escape-last", "key-escape-middle", "array-members",
-                                       "object-members", "number-fraction-zeros", "number-trailing-zeros"};
-            ctx.label(std::string("size:") + sh[c.form % 9]);
+                                       "object-members", "number-fraction-zeros", "number-trailing-zeros", "equal-hash-keys", "equal-hash-keys-x"};
+            ctx.label(std::string("size:") + sh[c.form % 11]);
             ctx.nontrivial();
         } else {
             for (size_t i = 0; i + 3 < c.bytes.size(); i += 4) {
@@ -400,9 +419,9 @@ struct H {
             }
         }
         Outcome o = parse_width(u, c.width, ctx);
-        if (c.kind == 3 && (c.form % 9) < 7 && (c.closing == 0) != o.accepted) {
+        if (c.kind == 3 && (c.form % 11) < 7 && (c.closing == 0) != o.accepted) {
             ctx.fail(c.closing == 0 ? "big-document-rejected" : "cut-big-document-accepted",
-                     std::string("big document (") + std::to_string(u.size()) + " units, shape " + std::to_string(c.form % 9) + ")");
+                     std::string("big document (") + std::to_string(u.size()) + " units, shape " + std::to_string(c.form % 11) + ")");
         }
         if (c.kind == 1 && c.closing == 0 && !o.accepted) {
             ctx.fail("deep-document-rejected", "well-formed document nested " + std::to_string(c.depth) + " levels was rejected");
